@@ -140,11 +140,87 @@ func bgOne(event, window string) string {
 	return fmt.Sprintf("first=%s next=%s", first, next)
 }
 
+// capWake: n consumers of a buffer capped at ONE value (FixedBufferCleaner(1, 1)) have read "x" without committing and are parked
+// in a second Get; one Put("y") follows.  The Put takes the buffer over its cap, the cleaner trims one value, and the buffer has
+// the same length as before — but a different content: every parked Get must return y (a wake-up must not be filtered by
+// "the size did not change").
+func capWake(n int) string {
+	b := new(bigbuff.Buffer)
+	defer func() { go b.Close() }()
+	if err := b.SetCleanerConfig(bigbuff.CleanerConfig{Cleaner: bigbuff.FixedBufferCleaner(1, 1, nil), Cooldown: 0}); err != nil {
+		return "setup-error"
+	}
+	bg := context.Background()
+	var cons []bigbuff.Consumer
+	for i := 0; i < n; i++ {
+		c, err := b.NewConsumer()
+		if err != nil {
+			return "setup-error"
+		}
+		cons = append(cons, c)
+	}
+	b.Put(bg, 1)
+	for _, c := range cons {
+		if v, err := c.Get(bg); err != nil || v != 1 {
+			return "setup-error"
+		}
+	}
+	parked := make(chan struct{}, 64)
+	rm := hk.On(func(e hk.Event) {
+		if e.Name == "buf.get.pending" {
+			select {
+			case parked <- struct{}{}:
+			default:
+			}
+		}
+	})
+	defer rm()
+	type res struct {
+		v   interface{}
+		err error
+	}
+	out := make(chan res, n)
+	ctx, cancel := context.WithCancel(bg)
+	defer cancel()
+	for _, c := range cons {
+		c := c
+		go func() { v, err := c.Get(ctx); out <- res{v, err} }()
+	}
+	// every Get has evaluated "nothing there" at least once (sync attempt and/or waiter)
+	for i := 0; i < n; i++ {
+		select {
+		case <-parked:
+		case <-time.After(hangTimeout):
+			return "gets-never-parked"
+		}
+	}
+	time.Sleep(2 * time.Millisecond)
+	b.Put(bg, 2)
+	got, hung := 0, 0
+	deadline := time.After(hangTimeout)
+	for i := 0; i < n; i++ {
+		select {
+		case r := <-out:
+			if r.err == nil && r.v == 2 {
+				got++
+			}
+		case <-deadline:
+			hung = n - i
+			i = n
+		}
+	}
+	cancel()
+	return fmt.Sprintf("woken=%d hung=%d", got, hung)
+}
+
 func execBufGate(t *trace, script []string) {
 	for _, line := range script {
 		f := strings.Fields(line)
 		if len(f) == 3 && f[0] == "bg" {
 			t.Line(line, bgOne(f[1], f[2]))
+		}
+		if len(f) == 2 && f[0] == "capwake" {
+			t.Line(line, capWake(atoi(f[1])))
 		}
 	}
 }
@@ -155,6 +231,9 @@ func genBufGate(r *rng.R, tier string, i int) []string {
 		for _, w := range []string{"before", "locked", "spawn", "start", "wait", "parked"} {
 			s = append(s, fmt.Sprintf("bg %s %s", e, w))
 		}
+	}
+	for k := 0; k < 3; k++ {
+		s = append(s, fmt.Sprintf("capwake %d", 2+r.Intn(4)))
 	}
 	for k := len(s) - 1; k > 0; k-- {
 		j := r.Intn(k + 1)
